@@ -297,4 +297,5 @@ def replay(case):
         r = FAM[fam]((d,) + tuple(args[1:]))
     finally:
         shutil.rmtree(d, ignore_errors=True)
-    return (r is not None), repr(r)
+    import re
+    return (r is not None), re.sub(re.escape(d) + r"(/w\d+/c\d+)?", "<TMP>", repr(r))
